@@ -169,6 +169,43 @@ def _la_agg(costf, param=None):
     return f
 
 
+_LEVEL_CLS = {}
+
+
+def level_cost_class():
+    """A user-defined cost whose value depends on the LEVEL of the data: C(s, e) = (e - s) * |mean of the rows|^3 per column -- neither additive
+    over rows nor invariant under shifts / scaling, so any pre-processing of the data on its way to the scorer changes the scores."""
+    from skchange.costs.base import BaseCost
+    if id(BaseCost) in _LEVEL_CLS:
+        return _LEVEL_CLS[id(BaseCost)]
+
+    class LevelCost(BaseCost):
+        def __init__(self, param=None):
+            super().__init__(param)
+
+        @property
+        def min_size(self):
+            return 1
+
+        def get_param_size(self, p):
+            return p
+
+        def _fit(self, X, y=None):
+            self.data_ = np.array(X, dtype=float).reshape(len(X), -1)
+            return self
+
+        def _evaluate_optim_param(self, starts, ends):
+            return np.array([(e - s) * np.abs(self.data_[s:e].mean(axis=0)) ** 3 for s, e in zip(starts, ends)])
+
+    _LEVEL_CLS[id(BaseCost)] = LevelCost
+    return LevelCost
+
+
+def level_cost(x, param=None):
+    x = np.asarray(x, dtype=float)
+    return len(x) * np.abs(x.mean(axis=0)) ** 3
+
+
 def builtin_change_scores(p):
     """name -> (factory of the object handed to the detector, minimum segment size, direct definition summed over columns)."""
     from skchange.change_scores import CUSUM, ChangeScore
@@ -183,6 +220,8 @@ def builtin_change_scores(p):
         # costs at a FIXED parameter (their change score is identically 0 up to rounding: the cost is additive over rows)
         "L2Cost(0.5)": (lambda: L2Cost(param=0.5), 1, _cs_agg(oracles.l2_cost, 0.5)),
         "GaussianVarCost((0.5,2.0))": (lambda: GaussianVarCost(param=(0.5, 2.0)), 2, _cs_agg(oracles.gaussian_var_cost, (0.5, 2.0))),
+        # a user-defined cost that is NOT shift / scale invariant (the data must reach the scorer untouched)
+        "UserLevelCost": (lambda: level_cost_class()(), 1, _cs_agg(level_cost)),
     }
 
 
@@ -199,6 +238,7 @@ def builtin_local_scores(p):
         "L2Cost(0.5)": (lambda: L2Cost(param=0.5), 1, _la_agg(oracles.l2_cost, 0.5)),
         "LocalAnomalyScore(L2Cost(0.5))": (lambda: LocalAnomalyScore(L2Cost(param=0.5)), 1, _la_agg(oracles.l2_cost, 0.5)),
         "GaussianVarCost((0.5,2.0))": (lambda: GaussianVarCost(param=(0.5, 2.0)), 2, _la_agg(oracles.gaussian_var_cost, (0.5, 2.0))),
+        "UserLevelCost": (lambda: level_cost_class()(), 1, _la_agg(level_cost)),
     }
 
 
